@@ -1456,6 +1456,35 @@ func ruleGRDscan(w *World, r *Report) {
 	}
 	fn := w.SSAFunc(rs.Obj)
 	pos := w.Pos(rs.Decl.Pos())
+	// callers: the scan is started at the last valid offset itself (the loop-carried offset variable), not at a
+	// position computed from the frame that just failed (its length field is exactly what may be damaged)
+	for _, caller := range w.ModuleFuncs() {
+		if relPkg(caller.Obj) != "pkg/engine" {
+			continue
+		}
+		cf := w.SSAFunc(caller.Obj)
+		if cf == nil {
+			continue
+		}
+		k := 0
+		for _, in := range findInstrs(cf, func(in ssa.Instruction) bool { return isModCall(in, "pkg/engine", "resyncAOF") }) {
+			k++
+			c := in.(*ssa.Call)
+			arg := c.Call.Args[len(c.Call.Args)-1]
+			okArg := false
+			if phi, ok := arg.(*ssa.Phi); ok {
+				// the loop-carried offset: a phi at a loop head that is also what the function truncates to
+				for _, ref := range *phi.Referrers() {
+					if tc, ok := ref.(*ssa.Call); ok {
+						if o := calleeObj(&tc.Call); o != nil && shortName(o) == "File.Truncate" {
+							okArg = true
+						}
+					}
+				}
+			}
+			r.Cond(okArg, "GRD-scan", fmt.Sprintf("%s:resync-start#%d", shortName(caller.Obj), k), w.Pos(c.Pos()), "the scan starts at the last valid offset (the value the repair would truncate to)", shortName(caller.Obj)+" starts the forward scan at a position other than the last valid offset (for example past the frame that just failed, computed from its own length field): a damaged length field that still points inside the file makes the scan jump over intact frames, whose commands are silently dropped")
+		}
+	}
 	// n := file.Read(buf) #0
 	var nVal ssa.Value
 	for _, in := range findInstrs(fn, func(in ssa.Instruction) bool { return isCallTo(in, "os", "File.Read") }) {
